@@ -67,7 +67,9 @@ def palette_bound(F, S):
     v = F.fn(IH + "::Validate", nparams=0)
     eng2 = Engine(F, S)
     ex = eng2.analyze(v, frozenset()) or frozenset()
-    good = any(f[0] == "<=" and f[1] == ("mem", ("this",), "usedColorMapEntries") and "CalcMaxIndexedPaletteSize" in repr(f[2]) for f in ex)
+    cap_terms = {F.method_value(IH + "::CalcMaxIndexedPaletteSize", ("this",)),
+                 F.call_value(IH + "::CalcMaxIndexedPaletteSize", None, (("mem", ("this",), "bitCount"),))}
+    good = any(f[0] == "<=" and f[1] == ("mem", ("this",), "usedColorMapEntries") and ("CalcMaxIndexedPaletteSize" in repr(f[2]) or f[2] in cap_terms) for f in ex)
     inst = IH + "::Validate#used-colours"
     if good:
         out.append(ok("R-INDEX", inst, v.loc(v.body), v.qn, "usedColorMapEntries <= 2^bitCount after validation", "refusal on every returning path"))
